@@ -4,7 +4,7 @@ use vharness::util::*;
 
 fn main() {
     let args: Vec<String> = std::env::args().collect();
-    if args.len() != 4 {
+    if args.len() < 4 {
         eprintln!("usage: replay <domain> <in.ndjson> <out.ndjson>");
         std::process::exit(2);
     }
@@ -15,6 +15,10 @@ fn main() {
         "prim" => vharness::prim::replay(&args[2], &mut out),
         "lexer" => vharness::lexer::replay(&args[2], &mut out),
         "relayout" => vharness::lexer::relayout(&args[2], &mut out),
+        "frontfault" => {
+            let kv: Kv = args[4..].iter().filter_map(|a| a.split_once('=').map(|(k, v)| (k.to_string(), v.to_string()))).collect();
+            vharness::frontfault::replay(&args[2], &mut out, &kv)
+        }
         other => {
             eprintln!("unknown domain {}", other);
             std::process::exit(2);
